@@ -257,6 +257,20 @@ Proof.
 Qed.
 Print Assumptions C19_known_finding_KF4.
 
+(** KF4, severe form: the text behind the removed element reads like the body of an expired tag.  The
+    first run (2011) joins "x /*" with " <tl to="2000-…" x"; the second run with the SAME configuration
+    takes "/* <tl to="2000-…" x ⏎ /* <tl to="2100-…"> */" for the opening tag of an expired element, whose
+    closing tag is the closing tag of the pending element: "keep", valid until 2100, is deleted. *)
+Definition kf4i_src : str := [120; 32; 47; 42; 47; 42; 32; 60; 116; 108; 32; 116; 111; 61; 34; 50; 48; 48; 48; 45; 48; 49; 45; 48; 49; 32; 48; 48; 58; 48; 48; 58; 48; 48; 34; 62; 32; 42; 47; 103; 111; 110; 101; 47; 42; 32; 60; 47; 116; 108; 62; 32; 42; 47; 32; 60; 116; 108; 32; 116; 111; 61; 34; 50; 48; 48; 48; 45; 48; 49; 45; 48; 49; 32; 48; 48; 58; 48; 48; 58; 48; 48; 34; 32; 120; 10; 47; 42; 32; 60; 116; 108; 32; 116; 111; 61; 34; 50; 49; 48; 48; 45; 48; 49; 45; 48; 49; 32; 48; 48; 58; 48; 48; 58; 48; 48; 34; 62; 32; 42; 47; 107; 101; 101; 112; 47; 42; 32; 60; 47; 116; 108; 62; 32; 42; 47; 10; 101; 110; 100; 10]%N.
+Definition kf4i_out1 : str := [120; 32; 47; 42; 32; 60; 116; 108; 32; 116; 111; 61; 34; 50; 48; 48; 48; 45; 48; 49; 45; 48; 49; 32; 48; 48; 58; 48; 48; 58; 48; 48; 34; 32; 120; 10; 47; 42; 32; 60; 116; 108; 32; 116; 111; 61; 34; 50; 49; 48; 48; 45; 48; 49; 45; 48; 49; 32; 48; 48; 58; 48; 48; 58; 48; 48; 34; 62; 32; 42; 47; 107; 101; 101; 112; 47; 42; 32; 60; 47; 116; 108; 62; 32; 42; 47; 10; 101; 110; 100; 10]%N.
+Definition kf4i_out2 : str := [120; 32; 10; 101; 110; 100; 10]%N.
+Theorem C19_known_finding_KF4_idempotence :
+  clean (kf4_cfg 1293840000) kf4_ds kf4_de kf4i_src = Ok kf4i_out1 /\
+  clean (kf4_cfg 1293840000) kf4_ds kf4_de kf4i_out1 = Ok kf4i_out2 /\
+  kf4i_out1 <> kf4i_out2.
+Proof. split; [vm_compute; reflexivity|]. split; [vm_compute; reflexivity|]. discriminate. Qed.
+Print Assumptions C19_known_finding_KF4_idempotence.
+
 (** The older partial results, for arbitrary sources.  (1) A second run is the identity as soon as the first output contains no ready
     element (C04 applied to the output). *)
 Theorem C19_second_run_identity_partial :
